@@ -100,8 +100,26 @@ def check_pack(ctx, rules=("PACK", "AFFINE", "FEASIBLE")):
                 env_outer["vrng"] = _levels_conv(ctx, fv).conv(s.value)
             except NotAlgebraic:
                 pass
-    for idx, c in enumerate(sites):
-        branch = "adjust" if any((isinstance(t, ast.Name) and t.id == "adjust_values" and p) for t, p in si.guards(c)) else "fixed"
+    from ..astutil import canon_tests
+
+    def facts(node):
+        out = set()
+        for t, p in si.effective_guards(node):
+            out.update(canon_tests(t, p))
+        return out
+
+    instances = []
+    for c in sites:
+        g = facts(c)
+        if ("adjust_values", True) in g:
+            instances.append((c, "adjust", {("adjust_values", True)}))
+        elif ("adjust_values", False) in g:
+            instances.append((c, "fixed", {("adjust_values", False)}))
+        else:
+            # one call shared by both settings: analysed once per setting, resolving names under that assumption
+            instances.append((c, "adjust", {("adjust_values", True)}))
+            instances.append((c, "fixed", {("adjust_values", False)}))
+    for idx, (c, branch, assume) in enumerate(instances):
         site = f"{QUAL}:least_squares[{branch}]"
         fun = c.args[0] if c.args else None
         x0 = c.args[1] if len(c.args) > 1 else kwarg(c, "x0")
@@ -109,8 +127,8 @@ def check_pack(ctx, rules=("PACK", "AFFINE", "FEASIBLE")):
         if fun is None or x0 is None or bnds is None:
             ctx.violate("PACK", site, (fi, c), "least_squares is not called with (residual function, start vector, bounds=…): the fit would be unbounded")
             continue
-        x0e = fv.expand(x0, c)
-        be = simplify_index(fv.expand(bnds, c, stop=("free", "l", "h", "data_flat")))
+        x0e = fv.expand(x0, c, assume=assume)
+        be = simplify_index(fv.expand(bnds, c, stop=("free", "l", "h", "data_flat"), assume=assume))
         x0_el = r_elements(x0e)
         x0_extra = x0_el[1:] if x0_el else []
         x0_base = x0_el[0] if x0_el else x0e
@@ -124,10 +142,9 @@ def check_pack(ctx, rules=("PACK", "AFFINE", "FEASIBLE")):
         cl = [g for g in m.all_functions() if g.parent is fi and isinstance(fun, ast.Name) and g.name == fun.id]
         # choose the definition in the same branch
         closure = None
-        for g in cl:
-            gs = [t for t in si.guards(g.node)]
-            if [(U(t), p) for t, p in gs] == [(U(t), p) for t, p in si.guards(c)]:
-                closure = g
+        compatible = [g for g in cl if not any((t_, not p_) in assume for t_, p_ in facts(g.node))]
+        if len(compatible) == 1:
+            closure = compatible[0]
         if closure is None:
             ctx.undecided("PACK", site, (fi, c), "residual function not found in the same branch")
             continue
@@ -153,7 +170,7 @@ def check_pack(ctx, rules=("PACK", "AFFINE", "FEASIBLE")):
         # read-back
         k_rb = None
         for s in fv.statements():
-            if isinstance(s, ast.Assign) and U(s.targets[0]) == "data_flat[free]" and "result" in names_in(s.value) and si.guards(s) == si.guards(c):
+            if isinstance(s, ast.Assign) and U(s.targets[0]) == "data_flat[free]" and "result" in names_in(s.value) and not any((t_, not p_) in assume for t_, p_ in facts(s)):
                 v = s.value
                 if isinstance(v, ast.Subscript) and isinstance(v.slice, ast.Slice) and v.slice.upper is not None and isinstance(v.slice.upper, ast.UnaryOp):
                     k_rb = v.slice.upper.operand.value
